@@ -91,6 +91,17 @@ CLAIMED = {
              "global state may change only on global steps. Seeds include 0, None and a caller-owned Generator; model bugs "
              "(global fallback, shared instance generator) are rejected by TLC (self-test).",
         note="Bounded depth; a fixed pair of parameter sets and three instance configurations. Bit-identity observed via SHA-256."),
+    "C20": dict(
+        engine="tlc+trace", design_ref="DESIGN.md §3 C20",
+        technique="TLA+ spec Purity.tla (object store, Call leaves the store unchanged and agrees with the memo of all earlier calls, declared hidden-input users exempt) model-checked by TLC, which also enumerates all call/mutate programs to a depth; every program is instantiated with concrete entry points from a 110-entry catalogue of the public API, executed on shared arrays with every argument hashed before/after, and the recorded trace validated by PurityTrace.tla",
+        text="All programs of <= 3 (4) call/mutate steps over two shared array pools from TLC, each bound to concrete entry points in "
+             "rotation, plus 150 (1500) seeded random programs of 30 steps, so that every one of the 110 catalogue entries (every "
+             "public function of every module that can run here) is called at least 10 times on shared data with other calls "
+             "interleaved; trace validation checks ArgsUnchanged (bytes, shape, dtype, strides, flags), determinism across the "
+             "whole history (memo keyed by content), absence of global-RNG use outside the declared entry points, and item-wise "
+             "agreement of batched calls.",
+        note="Entry points that cannot run here are listed in the evidence (unrunnable_entry_points), never silently skipped. "
+             "Array sizes are fixed (8x8 pools); purity for other shapes is not explored."),
 }
 
 NOT_APPLICABLE = {
